@@ -1071,7 +1071,8 @@ class Constraints:
     @classmethod
     def lax_ge(cls, value, ge):
         if value < ge:
-            return ge
+            # (a copy: a mutable bound is not handed out itself)
+            return copy_value(ge)
         return value
 
     @classmethod
@@ -1089,7 +1090,7 @@ class Constraints:
     @classmethod
     def lax_le(cls, value, le):
         if value > le:
-            return le
+            return copy_value(le)
         return value
 
     @classmethod
